@@ -292,6 +292,11 @@ pub(crate) fn table() -> Vec<F> {
             call: |a| { let g = Guarded { st: std::sync::Mutex::new(acc_from(a)) }; let d = a.u() as u32; format!("ok {}", g.height_plus(d)) } },
         F { key: "Fixture.Guarded.total", prop: "FIX", gen: |r| gen_acc(r),
             call: |a| { let g = Guarded { st: std::sync::Mutex::new(acc_from(a)) }; format!("ok {}", g.total()) } },
+        F { key: "Fixture.scale_all", prop: "FIX",
+            gen: |r| { let v: Vec<u64> = (0..r.below(5)).map(|_| match r.below(4) { 0 => 0, 1 => u64::MAX, _ => r.below(9) }).collect();
+                       format!("{} {}", arg_list(&v), match r.below(5) { 0 => 100, 1 => 101, 2 => 7, 3 => u64::MAX, _ => r.below(12) }) },
+            call: |a| { let mut v = a.list(); let k = a.u();
+                        match scale_all(&mut v, k) { Ok(x) => format!("ok ({},{})", enc_list(&v), x), Err(()) => "err ()".into() } } },
         F { key: "Fixture.Holder.mark", prop: "FIX",
             gen: |r| format!("{} {} {} {}", if r.chance(1, 4) { "-".to_string() } else { format!("+ {}", gen_outs(r)) },
                              if r.chance(1, 4) { U32M } else { r.below(9) }, r.below(4), arg_list(&[r.below(3)][..r.below(2) as usize])),
